@@ -120,6 +120,27 @@ def replay_known(ctx, name, ops, expect_line, expect_text, key, what):
     ctx.log(f"[replay] {name}: behaviour {'reproduced' if shown else 'NOT reproduced'} on the implementation, model {'agrees' if agree else 'DIFFERS'}")
 
 
+def cleanup_leftovers():
+    """cases that end in a (modelled) fatal panic leak their node / service / connection files: the harness
+    forgets the poisoned objects.  Everything this component creates is prefixed `vr<pid>_`; entries of
+    processes that no longer exist are removed."""
+    import os, re, shutil
+    pat = re.compile(r"^vr([0-9]+)_")
+    n = 0
+    for root in ("/dev/shm", "/tmp/iceoryx2"):
+        for d, dirs, files in os.walk(root, topdown=False):
+            for name in files + dirs:
+                m = pat.match(name)
+                if m and not os.path.exists(f"/proc/{m.group(1)}"):
+                    p = os.path.join(d, name)
+                    try:
+                        shutil.rmtree(p) if os.path.isdir(p) and not os.path.islink(p) else os.remove(p)
+                        n += 1
+                    except OSError:
+                        pass
+    return n
+
+
 def shrink_new(ctx):
     """delta-debugs the recorded case of every violation that is not a known finding (the differential runs
     themselves do not shrink: most mismatch classes of this check are known findings)"""
@@ -179,6 +200,7 @@ def run(ctx):
                                    "in update_connections. History: " + "; ".join(CEX_LEAK)))
         replay_known(ctx, "non-fire-and-forget-borrow-leak", CEX_LEAK, 13, "PANIC", "reqres.replay:panic:leaked-borrow-expired-buffer",
                      ctx.known[-1]["what"])
+        ctx.extra["leftover_files_removed"] = cleanup_leftovers()
     return core.finish(ctx, level="proof", rule=RULE, extra_assumptions=ASSUME)
 
 
